@@ -10,6 +10,8 @@ Streams
                       divisor batch size (and some non-divisors), all five loss types; the batches
                       visited inside `reconstruct` vs the model's schedule
   determinism bitwise same seed twice / same object after `reset=True` → identical iter_losses
+  history     bitwise one object: run(reset=True); continue without reset (1 and 2 iterations); run(reset=True)
+                      again → identical iter_losses AND identical batch schedule, also vs a fresh same-seed object
 The property predicate (partition, exactly-once, len, mean-of-batches = full batch, identical
 histories) is evaluated on the real code with plain Python/NumPy oracles that do not use the model.
 """
@@ -483,6 +485,76 @@ def determinism_case(ctx, cfg, b):
     ctx.stat_max("determinism_loss_decrease_seen", 1.0 if a[-1] < a[0] else 0.0)
 
 
+def history_case(ctx, drv, cfg, b):
+    """multi-step history on ONE object: run(reset=True) = A; continue WITHOUT reset for k iterations;
+    run(reset=True) = C; for two continuation lengths.  "The same run after a reset produces an identical
+    loss history": C == A bit for bit, with the identical batch schedule, and both equal a fresh object
+    built with the same seed.  (Catches state that survives reset_recon only after the generator has been
+    advanced by an un-reset run, e.g. a batcher constructed before the reset.)"""
+    from props import ptycho_tiny as pt
+    from qv.driver import f2b
+    iters = cfg["iters"]
+
+    def go(p, reset, n_it):
+        rec = pt.record_batches(p, b, num_iters=n_it, freeze=False, reset=reset, loss_type=cfg["loss_type"],
+                                optimizer_params=pt.sgd_params(cfg["lr"], cfg["lr"]), keep_optimizers=not reset)
+        sched = [(e["iter"], e["val"], e["indices"]) for e in rec]
+        n_hist = len(p.iter_losses)
+        return {"losses": [float(x) for x in p.iter_losses][n_hist - n_it:], "val": [float(x) for x in p.val_iter_losses][-n_it:] if len(p.val_iter_losses) else [],
+                "sched": [[it, v, idx] for it, v, idx in sched], "n_hist": n_hist}
+    case = {"stream": "history", "cfg": cfg, "b": b}
+    with pt.no_gc():
+        p = build(cfg)
+        A = go(p, True, iters)
+        runs = []
+        for k in cfg.get("cont", [1, 2]):
+            cont = go(p, False, k)
+            if cont["n_hist"] != iters + k:
+                ctx.pred_fail("continue-history-length", "continuing without reset does not append to the loss history", dict(case, k=k),
+                              observed=cont["n_hist"], required=iters + k)
+            runs.append((k, go(p, True, iters)))
+        F = go(build(cfg), True, iters)
+    N = int(p.dset.num_gpts)
+    for k, C in runs:
+        ctx.count()
+        ctx.mark(("history", tuple(cfg["scan"]), tuple(cfg["roi"]), cfg["loss_type"], b, cfg["val_ratio"], cfg["val_mode"], k))
+        ctx.dist[f"history:val={'0' if cfg['val_ratio'] == 0 else cfg['val_mode']},cont={k}"] += 1
+        ck = dict(case, k=k)
+        if C["losses"] != A["losses"] or C["val"] != A["val"]:
+            ctx.pred_fail("determinism-reset-after-continue", f"run(reset=True), continue {k} iteration(s) without reset, run(reset=True): the second reset run's loss history differs from the first", ck,
+                          observed={"first": A["losses"], "after_continue_and_reset": C["losses"], "val_first": A["val"], "val_after": C["val"]}, required="bit-identical")
+        if C["sched"] != A["sched"]:
+            i = next((j for j, (x, y) in enumerate(zip(A["sched"], C["sched"])) if x != y), min(len(A["sched"]), len(C["sched"])))
+            ctx.pred_fail("schedule-reset-after-continue", f"after continuing {k} iteration(s) and resetting, the batch schedule of the run differs from that of the first run", ck,
+                          observed={"first_differing_batch": i, "first_run": A["sched"][i:i + 1], "after_reset": C["sched"][i:i + 1]}, required="identical batches in identical order")
+        if C["losses"] != F["losses"] or C["sched"] != F["sched"]:
+            ctx.pred_fail("determinism-fresh-vs-history", f"an object after (run, continue {k}, reset) does not reproduce a fresh object built with the same seed", ck,
+                          observed={"after_history": C["losses"], "fresh": F["losses"]}, required="bit-identical losses and schedule")
+    if A["losses"] != F["losses"] or A["sched"] != F["sched"]:
+        ctx.pred_fail("determinism-same-seed", "two objects built with the same seed produced different loss histories / schedules", case,
+                      observed={"run1": A["losses"], "run2": F["losses"]}, required="bit-identical")
+    # correspondence: the schedule of the last reset run is the model's schedule for the seed
+    train = sorted(i for it, v, idx in A["sched"] if not v and it == 0 for i in idx)
+    perm, orders = twin_schedule(cfg, N, train, b, iters)
+    m = drv.ask({"op": "batcher", "n": N, "ratio": f2b(cfg["val_ratio"]), "mode": cfg["val_mode"], "perm": perm, "b": b, "orders": orders})
+    mv = m.get("ok", m)
+    if "epochs" not in mv:
+        raise HarnessError(f"driver error {m}")
+    last = runs[-1][1] if runs else A
+    impl_epochs = [[idx for it, v, idx in last["sched"] if not v and it == e] for e in range(iters)]
+    if mv["epochs"] != impl_epochs:
+        ctx.disagree("reconstruct-schedule-after-history", case, mv["epochs"], impl_epochs, note="batches of the reset run after (run, continue, reset) vs model schedule for the seed")
+    ctx.sample({"stream": "history", "cfg": cfg, "b": b, "losses_first_run": A["losses"], "continuations": cfg.get("cont", [1, 2])}, limit=6)
+
+
+def gen_history_cfg(rng, i):
+    c = gen_det_cfg(rng)
+    c["val_ratio"], c["val_mode"] = [(0.0, "grid"), (0.25, "grid"), (0.3, "random"), (0.0, "grid"), (0.5, "grid"), (0.2, "random")][i % 6]
+    c["cont"] = [[1, 2], [2, 1]][i % 2]
+    c["iters"] = 2 + (i % 2)
+    return c
+
+
 # ---------------------------------------------------------------------------------------
 
 def guarded(ctx, fn, case, *args):
@@ -496,7 +568,7 @@ def guarded(ctx, fn, case, *args):
     except Exception as e:  # noqa
         cfg = next((a for a in args if isinstance(a, dict)), None)
         case = dict(case, cfg=cfg)
-        if fn is determinism_case:
+        if fn is determinism_case or fn is history_case:
             case["b"] = args[-1]
         tb = traceback.extract_tb(e.__traceback__)
         where = next((f"{f.filename.split('/src/')[-1]}:{f.lineno}" for f in reversed(tb) if "/quantem/" in f.filename), "harness")
@@ -521,6 +593,13 @@ def run(ctx):
             cfg = gen_det_cfg(rng)
             n = cfg["scan"][0] * cfg["scan"][1]
             guarded(ctx, determinism_case, {"stream": "determinism"}, ctx, cfg, rng.choice([2, 3, 4, 5, 7, n // 2, n - 1]))
+        rng = ctx.rng.fork(4)
+        for i in range(ctx.n(4, 24)):
+            cfg = gen_history_cfg(rng, i)
+            n = cfg["scan"][0] * cfg["scan"][1]
+            n_train = n - py_nval(n, cfg["val_ratio"])
+            b = rng.choice([x for x in (2, 3, 4, 5, 7) if x < n_train] or [1])      # shuffled mini-batches: b < number of training patterns
+            guarded(ctx, history_case, {"stream": "history"}, ctx, drv, cfg, b)
         ctx.exhaustive = None
         ctx.extra["exhaustive_note"] = ("both tiers enumerate every (n<=40, b<=45, ratio=k/16, mode) for SimpleBatcher (thorough: also every (n<=200, b<=n+5) with sampled ratios) and every "
                                         "(n<=32 quick / 60 thorough, num_batches<=n+2 | max_batch<=n_max+5) for subdivide_batches; seeds/shuffles are sampled (the theorems cover all permutations)")
@@ -553,6 +632,8 @@ def replay(ctx, rep):
             numeric_case(ctx, drv, case["cfg"], only_b=case.get("b"))
         elif stream == "determinism":
             determinism_case(ctx, case["cfg"], case["b"])
+        elif stream == "history":
+            history_case(ctx, drv, case["cfg"], case["b"])
     finally:
         drv.close()
     return True
